@@ -68,6 +68,13 @@ func (x *Exec) homeMethodEffect(st *State, w Value, name string) {
 					x.assume(s2, Implies(p0, p1))
 				}
 			}
+			for _, sc := range ct.Steps {
+				e1 := x.newEnv(cfr, s2, pre, vars, fn)
+				p1 := e1.evalBool(sc.Expr)
+				if e1.err == nil {
+					x.assume(s2, p1)
+				}
+			}
 		}
 		branches = append(branches, edge{nil, TTrue, s2})
 	}
